@@ -1,3 +1,7 @@
 import Proofs.Lemmas.PathLemmas
 import Proofs.Lemmas.TreeLemmas
+import Proofs.Lemmas.LoopLemmas
+import Proofs.C09
+import Proofs.C13
+import Proofs.C17
 import Proofs.C19
